@@ -131,7 +131,7 @@ def scenario(draw):
         "seed": draw(st.integers(1, 2 ** 31)),
         "shifts": [draw(st.sampled_from([None, [0.05, 0.0, 0.0], [0.0, -0.03, 0.02]])) for _ in range(3)],
     }
-    if driver in ("Isobaric", "Isotension", "GrandCanonical") and draw(st.integers(0, 3)) > 0:
+    if driver in ("Isobaric", "Isotension", "GrandCanonical") and draw(st.integers(0, 5)) > 0:
         scn["shipped"] = True
     return scn
 
@@ -387,7 +387,7 @@ def _driver(case):
 
 def plan(tier):
     if tier == "quick":
-        return [{"part": "machine", "shards": 16, "budget": {"n_examples": 120, "steps": 20}}]
+        return [{"part": "machine", "shards": 16, "budget": {"n_examples": 350, "steps": 25}}]
     return [{"part": "machine", "shards": 16, "budget": {"n_examples": 2000, "steps": 40}}]
 
 
